@@ -45,6 +45,18 @@ CHECKS.update({
    text='Every allowed argument as a singleton, all at once, every subset of the checksum family and a disallowed name, for every transfer method/mode of TransferManager, legacy S3Transfer and the process-pool submitter; each operation must receive exactly the arguments its input shape has, unmodified, including the abort cleanup.'),
 })
 
+CHECKS.update({
+ 'C13': dict(level='model_checking', design='DESIGN.md 3/C13', note='Virtual clock: time advances only when all threads are blocked. Burst allowance B(n)=n*(2*threshold+max_read). Thresholds scaled (4 bytes, 4 B/s). n=4..8 only with identical saturated scripts.',
+   technique='exhaustive schedule exploration (deterministic scheduler, virtual clock) of n stream threads running (think, read) scripts against the real LeakyBucket/BandwidthLimitedStream, with abandonment and late wake-ups as environment deviations; plus manager wiring runs',
+   text='For 1-3 streams (and 4-8 identical saturated ones) every arrival order in virtual time, every preemption within the bound, abandonment at every wait and late wake-ups: every sleep is bounded by what the limit needs for live waiters plus own, one wait per read, failed transfers raise instead of waiting, bytes per interval within 1.25*m*T+B (m*T+B saturated), sub-limit demand never delayed; upload and download paths of a manager with max_bandwidth are throttled by one bucket.'),
+ 'C19': dict(level='model_checking', design='DESIGN.md 3/C19', note='The cross-process protocol is replayed in-process (threads, DetQueue, in-process monitor): pickling, proxy round trips, real signals and process death are not modelled.',
+   technique='stateless exhaustive exploration under a deterministic scheduler of the real ProcessPoolDownloader/GetObjectSubmitter/GetObjectWorker/TransferMonitor objects wired in-process (processes as controlled threads), with faults, cancel and Ctrl-C injections',
+   text='1-3 workers, 1-2 downloads of 1-4 jobs; every schedule within the deviation budget of user thread, submitter, workers and a cancelling thread; single faults in HeadObject/GetObject/stream/allocate/rename; at the step done is notified all queued jobs are accounted for, the file is complete or the temp file is gone; shutdown returns only after all downloads are done; Ctrl-C in the with-block cancels.'),
+ 'C20': dict(level='model_checking', design='DESIGN.md 3/C20', note='awscrt is not installed: stub S3Client (finished_future completed first, then on_done, one event-loop thread) - trusted, cannot be validated against the real CRT here. Permits scaled 128 -> 2.',
+   technique='stateless exhaustive exploration under a deterministic scheduler of the real CRTTransferManager python layer against a stub CRT client whose completion order and outcomes are explorer choices',
+   text='Every sequence of 3 (thorough: 4) submissions x construction outcome (ok / serializer raises / make_request raises / on_queued raises) x shutdown(cancel), completions in every order with success/error/cancel: semaphore never above its initial value and back to it at quiescence, on_done subscribers before the done event, shutdown after all done-callbacks, temp file renamed or removed.'),
+})
+
 def main():
     checks = []
     for p in props:
@@ -71,7 +83,7 @@ def main():
                'source_commits': [], 'add_only': True},
      'engines': [
         {'name': 'detsched', 'path': 'vt/detsched.py', 'serves_properties': props, 'kind_free_text': 'deterministic scheduler for real threads + controlled primitives + DetExecutor; stateless deviation-bounded exploration (vt/explore.py)'},
-        {'name': 'bfs', 'path': 'vt/bfs.py', 'serves_properties': ['C12', 'C16', 'C17', 'C09'], 'kind_free_text': 'explicit-state BFS over real objects with reference model'},
+        {'name': 'bfs', 'path': 'vt/bfs.py', 'serves_properties': ['C12', 'C16', 'C17'], 'kind_free_text': 'explicit-state BFS over real objects with reference model'},
      ],
      'checks': checks,
      'not_applicable': [{'property_id': p, 'reason': 'check not built yet (build in progress; see DESIGN.md section 3)'} for p in props if p not in CHECKS],
